@@ -27,8 +27,7 @@ def main(tier, seed):
         extra_jobs=extra_jobs(tier))
     c = rep.counters
     ev = c["R1.checked"] + c["R2.checked"] + c["R3.checked"]
-    if not (c["R1.checked"] and c["R2.checked"] and c["R3.checked"]):
-        raise core.Inconclusive("a relation was never exercised")
+    rep.require(not (not (c["R1.checked"] and c["R2.checked"] and c["R3.checked"])), "a relation was never exercised")
     return rep.finish(ev, rep.distinct_count,
                       "all strings up to length %d over a 12-token alphabet as whole address / local part / domain, plus the "
                       "C01 address corpus; relations R1 (pure ASCII, no quote/backslash: same decision and code in 4 modes), R2 "
